@@ -51,6 +51,21 @@ func compareSummaries(p *Program, code, spec *Summary) *equivResult {
 			fail("%s differs: %s", label, m)
 		}
 	}
+	unreach := tSym("unreachable")
+	// inLoop(side, i, t): t as it matters inside an iteration of loop i (and of the loops around it)
+	var inLoop func(sum *Summary, i int, t *Term) *Term
+	inLoop = func(sum *Summary, i int, t *Term) *Term {
+		if t == nil || i < 0 || i >= len(sum.Loops) {
+			return t
+		}
+		l := sum.Loops[i]
+		w := tIte(l.Cond, t, unreach)
+		w.Num, w.Bool, w.Str = false, false, false
+		if t.Bool {
+			w = tAnd(l.Cond, t)
+		}
+		return inLoop(sum, l.Parent, w)
+	}
 	// --- loops first: fixes the correspondence of loop-carried values
 	if len(code.Loops) != len(spec.Loops) {
 		fail("loop structure differs: code has %d loops, the reference %d", len(code.Loops), len(spec.Loops))
@@ -73,7 +88,7 @@ func compareSummaries(p *Program, code, spec *Summary) *equivResult {
 			search = func(j int) bool {
 				if j == n {
 					for a := 0; a < n; a++ {
-						if ok, m := eq(cl.Vars[a].Step, sl.Vars[perm[a]].Step); !ok {
+						if ok, m := eq(inLoop(code, i, cl.Vars[a].Step), inLoop(spec, i, sl.Vars[perm[a]].Step)); !ok {
 							if os.Getenv("RDM_DEBUG") != "" {
 								fmt.Printf("DEBUG perm %v: step of code var %d vs reference var %d: %s\n", perm, a, perm[a], m)
 							}
@@ -111,7 +126,7 @@ func compareSummaries(p *Program, code, spec *Summary) *equivResult {
 			}
 			for a := 0; a < n && identity; a++ {
 				ok1, _ := eq(cl.Vars[a].Init, sl.Vars[a].Init)
-				ok2, _ := eq(cl.Vars[a].Step, sl.Vars[a].Step)
+				ok2, _ := eq(inLoop(code, i, cl.Vars[a].Step), inLoop(spec, i, sl.Vars[a].Step))
 				identity = ok1 && ok2
 			}
 			if !identity {
@@ -125,7 +140,7 @@ func compareSummaries(p *Program, code, spec *Summary) *equivResult {
 					}
 					for a := 0; a < n; a++ {
 						cmp(fmt.Sprintf("L%d.v%d(%s).init", i, a, cl.Vars[a].Name), cl.Vars[a].Init, sl.Vars[a].Init)
-						cmp(fmt.Sprintf("L%d.v%d(%s).step", i, a, cl.Vars[a].Name), cl.Vars[a].Step, sl.Vars[a].Step)
+						cmp(fmt.Sprintf("L%d.v%d(%s).step", i, a, cl.Vars[a].Name), inLoop(code, i, cl.Vars[a].Step), inLoop(spec, i, sl.Vars[a].Step))
 					}
 				}
 			}
@@ -135,8 +150,8 @@ func compareSummaries(p *Program, code, spec *Summary) *equivResult {
 			if len(cl.Exits) != len(sl.Exits) {
 				fail("L%d: %d early exits in the code, %d in the reference", i, len(cl.Exits), len(sl.Exits))
 			} else {
-				matchUnordered(len(cl.Exits), func(a, b int) bool { ok, _ := eq(cl.Exits[a], sl.Exits[b]); return ok },
-					func(a int) { cmp(fmt.Sprintf("L%d.exit%d", i, a), cl.Exits[a], sl.Exits[a]) })
+				matchUnordered(len(cl.Exits), func(a, b int) bool { ok, _ := eq(inLoop(code, i, cl.Exits[a]), inLoop(spec, i, sl.Exits[b])); return ok },
+					func(a int) { cmp(fmt.Sprintf("L%d.exit%d", i, a), inLoop(code, i, cl.Exits[a]), inLoop(spec, i, sl.Exits[a])) })
 				r.Labels += len(cl.Exits)
 			}
 		}
@@ -160,11 +175,11 @@ func compareSummaries(p *Program, code, spec *Summary) *equivResult {
 			if ce.Kind != se.Kind || ce.Region != se.Region || len(ce.Args) != len(se.Args) {
 				return false
 			}
-			if ok, _ := eq(ce.Guard, se.Guard); !ok {
+			if ok, _ := eq(inLoop(code, ce.Region, ce.Guard), inLoop(spec, se.Region, se.Guard)); !ok {
 				return false
 			}
 			for j := range ce.Args {
-				if ok, _ := eq(ce.Args[j], se.Args[j]); !ok {
+				if ok, _ := eq(inLoop(code, ce.Region, underGuard(ce.Guard, ce.Args[j])), inLoop(spec, se.Region, underGuard(se.Guard, se.Args[j]))); !ok {
 					return false
 				}
 			}
@@ -188,9 +203,9 @@ func compareSummaries(p *Program, code, spec *Summary) *equivResult {
 				return
 			}
 			se := spec.Effects[best]
-			cmp(label+".guard", ce.Guard, se.Guard)
+			cmp(label+".guard", inLoop(code, ce.Region, ce.Guard), inLoop(spec, se.Region, se.Guard))
 			for j := range ce.Args {
-				cmp(fmt.Sprintf("%s.arg%d", label, j), ce.Args[j], se.Args[j])
+				cmp(fmt.Sprintf("%s.arg%d", label, j), inLoop(code, ce.Region, underGuard(ce.Guard, ce.Args[j])), inLoop(spec, se.Region, underGuard(se.Guard, se.Args[j])))
 			}
 		})
 		r.Labels += len(code.Effects)
@@ -265,6 +280,19 @@ func mergeExclusiveWrites(effects []Effect) []Effect {
 		out = append(out, e)
 	}
 	return out
+}
+
+// underGuard: the argument of an effect matters only when the effect happens.
+func underGuard(g, t *Term) *Term {
+	if g == nil || t == nil || isTrue(g) {
+		return t
+	}
+	if t.Bool {
+		return tAnd(g, t)
+	}
+	w := tIte(g, t, tSym("unreachable"))
+	w.Num, w.Bool, w.Str = false, false, false
+	return w
 }
 
 func abs(i int) int {
